@@ -42,7 +42,10 @@ func FuncKey(fn *types.Func) string {
 	return pk + "." + recv + "." + fn.Name()
 }
 
-// LoadKnown reads the reference list (one key per line).
+// ParamNames holds, per known function, the reference names of receiver and parameters ("recv,p1,p2").
+var ParamNames = map[string]string{}
+
+// LoadKnown reads the reference list (one "key<TAB>recv,p1,p2,..." per line).
 func LoadKnown(path string) (map[string]bool, error) {
 	f, err := os.Open(path)
 	if err != nil {
@@ -53,11 +56,138 @@ func LoadKnown(path string) (map[string]bool, error) {
 	sc := bufio.NewScanner(f)
 	sc.Buffer(make([]byte, 1<<20), 1<<20)
 	for sc.Scan() {
-		if l := strings.TrimSpace(sc.Text()); l != "" {
-			out[l] = true
+		l := strings.TrimSpace(sc.Text())
+		if l == "" {
+			continue
 		}
+		k, names, _ := strings.Cut(l, "\t")
+		out[k] = true
+		ParamNames[k] = names
 	}
 	return out, sc.Err()
+}
+
+func declNames(fd *ast.FuncDecl) []*ast.Ident {
+	var out []*ast.Ident
+	if fd.Recv != nil && len(fd.Recv.List) == 1 && len(fd.Recv.List[0].Names) == 1 {
+		out = append(out, fd.Recv.List[0].Names[0])
+	} else {
+		out = append(out, nil)
+	}
+	for _, f := range fd.Type.Params.List {
+		if len(f.Names) == 0 {
+			out = append(out, nil)
+		}
+		for _, nm := range f.Names {
+			out = append(out, nm)
+		}
+	}
+	return out
+}
+
+func namesString(fd *ast.FuncDecl) string {
+	var ns []string
+	for _, id := range declNames(fd) {
+		if id == nil {
+			ns = append(ns, "_")
+		} else {
+			ns = append(ns, id.Name)
+		}
+	}
+	return strings.Join(ns, ",")
+}
+
+// RenameParams gives receivers and parameters of known functions their reference names back (a rule may name a
+// parameter; a renamed parameter is the same parameter). Skipped where the reference name is taken by something else
+// inside the function.
+func RenameParams(fset *token.FileSet, pkgs []*packages.Package, known map[string]bool, overlay map[string][]byte) *Result {
+	res := &Result{Overlay: map[string][]byte{}}
+	for _, pk := range pkgs {
+		if pk.TypesInfo == nil || len(pk.Errors) > 0 {
+			continue
+		}
+		info := pk.TypesInfo
+		for _, f := range pk.Syntax {
+			var eds []edit
+			for _, d := range f.Decls {
+				fd, ok := d.(*ast.FuncDecl)
+				if !ok || fd.Body == nil {
+					continue
+				}
+				obj, ok := info.Defs[fd.Name].(*types.Func)
+				if !ok || !known[FuncKey(obj)] {
+					continue
+				}
+				ref := strings.Split(ParamNames[FuncKey(obj)], ",")
+				cur := declNames(fd)
+				if len(ref) != len(cur) {
+					continue
+				}
+				ren := map[types.Object]string{}
+				for i, id := range cur {
+					if id == nil || id.Name == "_" || ref[i] == "_" || ref[i] == "" || id.Name == ref[i] {
+						continue
+					}
+					if o := info.Defs[id]; o != nil {
+						ren[o] = ref[i]
+					}
+				}
+				if len(ren) == 0 {
+					continue
+				}
+				// the reference names must be free inside the function
+				taken := false
+				want := map[string]bool{}
+				for _, nm := range ren {
+					want[nm] = true
+				}
+				ast.Inspect(fd, func(x ast.Node) bool {
+					if id, ok := x.(*ast.Ident); ok && want[id.Name] {
+						o := info.Uses[id]
+						if o == nil {
+							o = info.Defs[id]
+						}
+						if o != nil {
+							if v, isVar := o.(*types.Var); !isVar || !v.IsField() {
+								taken = true
+							}
+						}
+					}
+					return true
+				})
+				if taken {
+					res.Skipped = append(res.Skipped, fmt.Sprintf("parameters of %s not renamed to the reference names: a reference name is in use", obj.Name()))
+					continue
+				}
+				ast.Inspect(fd, func(x ast.Node) bool {
+					if id, ok := x.(*ast.Ident); ok {
+						o := info.Uses[id]
+						if o == nil {
+							o = info.Defs[id]
+						}
+						if nm, ok := ren[o]; ok && o != nil {
+							eds = append(eds, edit{fset.Position(id.Pos()).Offset, fset.Position(id.End()).Offset, nm})
+						}
+					}
+					return true
+				})
+				res.Inlined = append(res.Inlined, fmt.Sprintf("%s: parameters renamed to the reference names %v", obj.Name(), ref))
+			}
+			if len(eds) > 0 {
+				name := fset.File(f.Pos()).Name()
+				content, ok := overlay[name]
+				if !ok {
+					b, err := os.ReadFile(name)
+					if err != nil {
+						continue
+					}
+					content = b
+				}
+				res.Overlay[name] = []byte(applyEdits(string(content), 0, eds))
+			}
+		}
+	}
+	return res
 }
 
 // DeclaredFuncs lists the keys of all functions declared (with a body) in the packages.
@@ -71,7 +201,7 @@ func DeclaredFuncs(pkgs []*packages.Package) []string {
 			for _, d := range f.Decls {
 				if fd, ok := d.(*ast.FuncDecl); ok {
 					if obj, ok := pk.TypesInfo.Defs[fd.Name].(*types.Func); ok {
-						out = append(out, FuncKey(obj))
+						out = append(out, FuncKey(obj)+"\t"+namesString(fd))
 					}
 				}
 			}
